@@ -44,7 +44,9 @@ TIE = ("T: the facts that select the model variant — the orchestrator's done-c
        "(`stop_in_order`, since 26a293c: the model's two segments rootStopping orchestrator / orchStopPingers; one stop of everything or "
        "the reverse order make stops_pingers_last_eq fail, any other shape is an ExtractError); spawn_tasks stops its tasks when cancelled in its sleep(0) (`spawnSwept := true`, since d6da86b); run_tasks "
        "handles a cancellation while it stops the root tasks (`stopSwept := true`, since 883284c); queueing.watcher re-checks "
-       "worker_error after the depletion and raises (`deplEscalates := true`, since 69d1957) — are re-extracted from the AST of "
+       "worker_error after the depletion and raises (`deplEscalates := true`, since 69d1957); the orchestrator's handler that stops its "
+       "ensemble takes CancelledError ONLY (`orchSwept := false`: the label orchCrash at which the current tree leaves the model, open "
+       "finding C20-F12; the proposed repair makes sweeps_own_failure_eq fail until the model follows) — are re-extracted from the AST of "
        "orchestration.py / running.py / scanning.py / daemons.py / queueing.py on every run and proved equal to the model's claims "
        "(Kopf/Tie/C20.lean; Boolean equalities about variant flags, none about `step`); a revert of any of these commits makes a tie "
        "theorem fail AND its corpus witness fail the oracle (rehearsed for 69d1957, ab6fb15, d6da86b, 883284c; a revert of 26a293c makes the tie theorem AND the trace tie fail, but no oracle clause: the old "
@@ -62,9 +64,14 @@ LEVEL_TEXT = (
     "cooperativity (`coopDelay`: tasks honour cancellation at once, the timed waits E, W, D, C, H are kept) is an explicit "
     "predicate on the run (`ReachC`). Since the repairs 69d1957 / ab6fb15 / d6da86b / 883284c the guard `abandoned = false` "
     "('none of the findings C20-F8 / F10 / F11 has happened') is GONE from every theorem: in the model of the current tree no "
-    "such label is enabled (repaired_never_abandoned, head_never_abandoned), and the cancellation of operator() inside "
+    "such label is enabled (repaired_never_abandoned), and the cancellation of operator() inside "
     "spawn_tasks / while run_tasks stops the root tasks is modelled as the code handles it now (rtCancel; every live root task "
-    "is cancelled AGAIN: scCut, the killer's interrupted finally). "
+    "is cancelled AGAIN: scCut, the killer's interrupted finally). BUT the current tree leaves the model at ONE label, orchCrash "
+    "(variant orchSwept := false, tie-checked: the orchestrator's handler that stops its ensemble takes CancelledError only): the "
+    "orchestrator's OWN failure ends it at once and orphans its ensemble (open finding C20-F12; "
+    "orchestrator_own_failure_leaves_model_witness, replayed on kopf); every theorem is about the code on runs WITHOUT that label "
+    "(head_abandoned_only_by_orchestrator_failure_partial: no other label makes a run of the current tree leave the model; the trace "
+    "tie compares an orch_fail history up to that label). "
     "FULL theorems (all runs, all moments of failures / flags / handled cancellations): no_api_before_startup, "
     "failed_startup_no_api, ready_after_startup ('startup first', 'ready only after startup'); root_failure_stops_all (once "
     "run_tasks stops, every live root task is cancelled or in its finally; the hung phase only after all root tasks ended; the "
@@ -85,7 +92,9 @@ LEVEL_TEXT = (
     "C + H) and failure_to_stop_bound_partial (from the first escalated failure: run_tasks begins to stop within 2(E+W+D), the "
     "operator is gone within 3(E+W+D) + C + H — the oracle's bound): for COOPERATIVE runs only "
     "(noncooperative_exit_unbounded_witness, model-level, NOT replayed: a real instance is a sync handler blocking in a thread); "
-    "peering_withdrawal_attempted_partial (ATTEMPTED, not withdrawn: withdrawal_may_fail_witness, deviation C20-D3). "
+    "peering_withdrawal_attempted_partial (ATTEMPTED, not withdrawn: withdrawal_may_fail_witness, deviation C20-D3); "
+    "head_abandoned_only_by_orchestrator_failure_partial (guard: no orchCrash in the run; the full 'no run of the current tree ever "
+    "leaves the model' is FALSE: open finding C20-F12). "
     "FULL, since /repo 26a293c (the orchestrator's exit is two sequential stops; the time bounds above are re-proved on that order: the "
     "streams within E, the keep-alives cancelled not later than t0 + E and withdrawing within W — still E + W + D): "
     "withdrawal_after_handling_stopped (once the exiting orchestrator has begun to stop the keep-alives — whose finally is what "
@@ -103,7 +112,9 @@ LEVEL_TEXT = (
     "historical_cancel_while_stopping_abandons_tasks_witness (C20-F11, before 883284c), "
     "historical_worker_failure_during_depletion_dropped_witness + historical_worker_failure_after_gone_keeps_running_witness "
     "(C20-F5, before 69d1957). "
-    "Clauses that rest on ORACLE/TIE only (no theorem): orphaned discovery requests vs the cleanup; the identity of the re-raised "
+    "Clauses that rest on ORACLE/TIE only (no theorem): 'the RUN CALL returns, re-raising the failure' for kopf.run() itself (the "
+    "real run() around a scripted operator(): outcome and hand-over of every argument; the theorems are about operator()); the "
+    "what follows the orchestrator's own failure (open finding C20-F12: the model stops at orchCrash); orphaned discovery requests vs the cleanup; the identity of the re-raised "
     "exception (type name of some failure); 'daemons are stopped' for daemons and timers whose stopper gives them up (deviation "
     "C20-D1), 'the record is withdrawn' when the PATCH fails (C20-D3) and 'cleanup handlers run' after a repeated cancellation "
     "(C20-D4) are recorded as by-design findings, not exempted. "
@@ -118,7 +129,8 @@ THEOREMS = [("Kopf.Props.C20", "Kopf.C20." + n) for n in [
     "withdrawal_after_handling_stopped", "exit_stops_keepalives_last",
     "worker_failure_reaches_watcher", "worker_failure_stops_all", "exit_bound_partial",
     "noncooperative_exit_unbounded_witness", "failure_to_stop_bound_partial", "stream_failure_stops_all",
-    "gone_is_not_a_failure", "core_failure_stops_all", "repaired_never_abandoned", "head_never_abandoned",
+    "gone_is_not_a_failure", "core_failure_stops_all", "repaired_never_abandoned",
+    "head_abandoned_only_by_orchestrator_failure_partial", "orchestrator_own_failure_leaves_model_witness",
     "repeated_cancel_skips_cleanup_witness",
     "historical_stream_failure_lingers_witness", "historical_core_failure_lingers_witness",
     "historical_core_failure_skips_cleanup_witness", "historical_double_cancel_abandons_ensemble_witness",
@@ -129,7 +141,7 @@ TIE_THEOREMS = [("Kopf.Tie.C20", "Kopf.C20.Tie." + n) for n in [
     "escalates_eq", "head_is_fixed", "ignores_not_found_eq", "restarts_exited_eq", "scan_cancels_children_eq",
     "watches_core_eq", "head_core_variant", "shields_stop_eq", "head_shield_variant", "stops_pingers_last_eq", "sweeps_spawn_eq", "sweeps_stop_eq",
     "head_sweep_variant", "escalates_depletion_eq", "head_depletion_variant", "head_handles_cancellations",
-    "no_spawn_while_exiting_eq"]]
+    "no_spawn_while_exiting_eq", "sweeps_own_failure_eq", "head_own_failure_variant"]]
 RULE = ("seeded lifecycle histories: 0-2 startup handlers (ok / sleeping / temporary with retries / permanent / retries "
         "exhausted), 0-2 cleanup handlers (ok / sleeping / temporary / permanent), 0-2 daemons (obey / needs cancellation / "
         "swallows one cancellation / exits on its own / polls its flag with asyncio.sleep / needs time to unwind after the "
@@ -152,12 +164,32 @@ RULE = ("seeded lifecycle histories: 0-2 startup handlers (ok / sleeping / tempo
         "a cancellation after the orchestrator has ended: C20-D4), two_failures, flag_then_cancel (a handler in flight, a flag, "
         "1/64-1/2 s later a cancellation: regression of C20-F11, and C20-D4 — the repeated cancellation catches the startup/cleanup "
         "task in its wait, in the cleanup, or not at all), respawn_daemon (two events of an object with a daemon queued at the stop: "
-        "regression of C20-F9), cancel_in_spawn (a cancellation one or two loop iterations after the call: regression of C20-F10). "
+        "regression of C20-F9), cancel_in_spawn (a cancellation one or two loop iterations after the call: regression of C20-F10), "
+        "cancel_in_hung_wait (a daemon its stopper gives up at once, a flag, and a cancellation 0.5-4 s after the root tasks are over: "
+        "operator() is cancelled while run_tasks waits for the hung tasks), watch_http (the list/watch requests of the served resource, of "
+        "the CRDs or — NAMESPACED operator — of the namespaces are answered with HTTP 403 / 500 / 503 for good: the stream fails with an "
+        "API error after the client's retries; an ENVIRONMENT-level failure for the oracle, whatever the tasks make of it), ns_stream (a "
+        "NAMESPACED operator, namespaces=['ns']: the namespace observer's own watch stream fails, by an ERROR event or by HTTP 5xx), "
+        "orch_fail (the orchestrator's own adjustment of the ensemble raises: open finding C20-F12), pause_stop_race (the API answers "
+        "the watch requests of the served resource 0.5 s late; the stream is cut; while the re-watch request is pending a peer of a higher "
+        "priority appears and, 0-5 loop iterations apart, the stop comes: the watcher's task is cancelled by the pause-stopper AND by the "
+        "exiting operator). In 15 % of the stop / stream-failure "
+        "histories an object is marked for deletion 1/64-1 s before the trigger (its daemons are being stopped the multi-step way); in 25 % of "
+        "those with peering a peer of a higher priority appears 0-3 s before the trigger: the operator is PAUSED (or pausing) when the stop / "
+        "the failure comes. 20 % of the histories without "
+        "peering run a NAMESPACED operator. A 32 s startup handler in half of the stop-during-startup histories and a 24 s handler in "
+        "flight in 20 % of the flag / cancel / stream-failure histories outlast every grace period (a stop felt late, a depletion without "
+        "its timeout cannot hide in the slack of the bound). Beside the histories: kopf.run() — the synchronous run call — around a scripted "
+        "operator() (returns / raises / is cancelled; with a loop of its own and without): what comes out of it, and that every argument "
+        "reaches operator(). "
         "A case is distinct by (trigger kind, phase, startup/cleanup outcome shapes, daemon modes, timer, second kind, empty "
         "vault, in-flight, peering, outcome); non-trivial when a trigger fires.")
 TRUSTED = ["harness/sim (virtual-time loop, fake API server, scripted handlers) and harness/props/sim_c20.py (attribute-level "
            "instrumentation: each log entry is written inside the atomic segment it names)",
            "CPython asyncio task/cancellation semantics — exercised, not modelled",
+           "the ready flag is observed on the flag object handed to operator() (its `set`), the started flag likewise; "
+           "harness/sim/runner.py replaces aiotasks.all_tasks by a per-incarnation one (a defect of all_tasks / of the `ignored` "
+           "hand-over is not visible to this check)",
            "three label arguments are chosen by the abstraction by LOOK-AHEAD in the log (prophecy): `fail` of the daemon killer's "
            "and of the keep-alive task's `finally:` (from how the task ends) and `coop` of a daemon at its spawn (from what its exit "
            "stopper observes later: task over / given up); the orchestrator's `fail` is forced by the model (`fail = orchErr`), the "
@@ -179,7 +211,8 @@ ASSUMPTIONS = ["oracle bound = the bound of the Lean theorems + 1 s slack for re
                "loop.call_later(..., pthread_kill, SIGKILL) on every non-flag stop and never disarms it when operator() returns: an "
                "embedding process whose loop lives on is killed 10 min after a failed operator) — not modelled, not checked",
                "stop triggers: one or two per run, at every await of spawn_tasks / run_tasks the current tree handles (sleep(0) of "
-               "spawn_tasks; the wait for the first root task; stop(root_pending); the wait for the hung tasks). NOT modelled and not "
+               "spawn_tasks; the wait for the first root task; stop(root_pending); the wait for the hung tasks — trigger "
+               "cancel_in_hung_wait). NOT modelled and not "
                "generated: a further cancellation of an operator() that is already inside one of its stop(…, cancelled=True) "
                "(aiotasks.stop gives up BY DESIGN, 'double-cancelling': its tasks are left behind — a third trigger after "
                "flag-then-cancel, a second one after a plain cancellation or a cancellation inside spawn_tasks), or inside the final "
@@ -190,8 +223,22 @@ ASSUMPTIONS = ["oracle bound = the bound of the Lean theorems + 1 s slack for re
                "kopf's documented design, when operator() is cancelled while it is already stopping (two stop triggers): deviation "
                "C20-D4 (repeated_cancel_skips_cleanup_witness); after ONE trigger of any kind the cleanup handlers do run (oracle)",
                "the cleanup activity is bounded by the scripted duration C (kopf sets no timeout for cleanup handlers)",
-               "the orchestrator's OWN failure (an exception out of its adjusting loop; it handles only CancelledError) is not "
-               "modelled and not generated",
+               "the orchestrator's OWN failure (an exception out of its adjusting loop; it handles only CancelledError) is modelled as "
+               "the label orchCrash at which the run LEAVES the model (variant orchSwept := false = the current tree, tie-checked; the "
+               "ghost flag `abandoned`, as for the historical variants): what the code does AFTER it is judged by the oracle only — the "
+               "orchestrator ends at once and its ensemble is orphaned (open finding C20-F12: cleanup beside live streams and handlers; "
+               "with peering operator() never returns); generated by the trigger orch_fail (the harness makes one adjust_tasks raise), "
+               "the trace tie compares such a history up to that label (`tie_truncated_at: orchCrash`). proposals/fix-C20-F12.diff makes "
+               "it the model's 'cancelled by a failed ensemble task' path (then sweeps_own_failure_eq fails until the model follows)",
+               "the by-design deviations are accepted only under their documented conditions, OBSERVED: C20-D1 only for a daemon whose "
+               "exit stopper ended on its own after its whole patience (cancellation_backoff + cancellation_timeout) and — with a timeout — "
+               "after it had asked the task to cancel (Task.cancelling()); a stopper cut short while operator() was not cancelled, or one "
+               "that gave up early, is a plain violation. C20-D3 only when the API refused the withdrawal PATCH or the credentials were "
+               "gone (dead credentials retriever / HTTP 401) — a withdrawal failing for any other reason is a plain violation",
+               "a stream failure by the ENVIRONMENT's doing (HTTP 403 / 5xx for good on the list/watch of a served resource, of the CRDs, "
+               "of the namespaces of a namespaced operator) is a failure for the oracle from the moment the client's retries are used up "
+               "(sum(error_backoffs) + latencies + 0.5 s), whether or not any task ends failed; by kopf's documented design a 403 on the "
+               "CRDs / namespaces is the restricted mode, not a failure: not generated",
                "'the peering record is withdrawn' is PROVED as 'the withdrawal was attempted by every keep-alive task' "
                "(peering_withdrawal_attempted_partial); the oracle demands the record to be gone and reports a failed withdrawal "
                "(request error after the retries, or no credentials after the credentials retriever died) as the by-design "
@@ -335,6 +382,12 @@ def extract(ctx: Ctx) -> None:
     if len(cancel_handlers) != 1:
         raise ExtractError(f"orchestrator has {len(cancel_handlers)} handlers of CancelledError: unknown shape")
     xh = cancel_handlers[0]
+    # (4d) does that handler — the only place where the orchestrator stops its ensemble — take the orchestrator's OWN failures too
+    #      (a bare `except:`, `BaseException`, or `Exception` beside `CancelledError`)? FALSE in the current tree: open finding
+    #      C20-F12 (the model's label `orchCrash`, variant `orchSwept := false`); proposals/fix-C20-F12 makes it true
+    sweeps_own_failure = xh.type is None or any(n in ("Exception", "BaseException") for n in
+                                                [ast.unparse(x).split(".")[-1] for x in
+                                                 (xh.type.elts if isinstance(xh.type, ast.Tuple) else [xh.type])])
     exit_stops = [c for c in _calls(xh, "stop") if isinstance(c.func.value, ast.Name) and c.func.value.id == "aiotasks"]
 
     def _stop_set(call: ast.Call) -> str:
@@ -484,7 +537,7 @@ def extract(ctx: Ctx) -> None:
         after = fb[(max(closes) + 1) if closes else len(fb):]
         rechecks = rechecks or any(isinstance(st_, ast.If) and "worker_error" in ast.unparse(st_.test)
                                    and any(isinstance(x, ast.Raise) for x in ast.walk(st_)) for st_ in after)
-    facts = {"watcherRechecksWorkerError": rechecks, "spawnTasksSweepsOnCancel": spawn_sweeps, "runTasksSweepsOnCancel": stop_sweeps, "killerMarksExiting": marks, "spawnHonoursExiting": honours, "rootTaskAwaitsCore": root_awaits_core, "coreErrorsAfterCleanup": core_after_cleanup,
+    facts = {"orchestratorSweepsOnOwnFailure": sweeps_own_failure, "watcherRechecksWorkerError": rechecks, "spawnTasksSweepsOnCancel": spawn_sweeps, "runTasksSweepsOnCancel": stop_sweeps, "killerMarksExiting": marks, "spawnHonoursExiting": honours, "rootTaskAwaitsCore": root_awaits_core, "coreErrorsAfterCleanup": core_after_cleanup,
              "orchestratorShieldsStop": shields_stop, "orchestratorStopsPingersLast": stops_pingers_last, "attachesDoneCallback": attaches, "callbackCancelsOrchestrator": cancels, "callbackIgnoresNotFound": ignores404,
              "reraisesTaskError": reraises, "doneTasksAreRedundant": done_redundant, "scanGathers": gathers,
              "scanCancelsInFinally": cancels_children, "scanUsesAsCompleted": uses_as_completed}
@@ -561,7 +614,7 @@ def unjustified_give_ups(sc: dict, log: list, upto: int | None = None) -> list[t
         if e[1] == "op" and e[2] in ("cancel", "cancel_yields"):
             op_cancelled = True
         elif e[1] == "stopperBegin":
-            begun[(e[2], e[4] if len(e) > 4 else None)] = e[0]
+            begun[(e[2], e[4] if len(e) > 4 else None, e[5] if len(e) > 5 else None)] = e[0]
         elif e[1] == "stopperEnd" and not e[3]:
             key = (e[2], e[4] if len(e) > 4 else None)
             how = e[5] if len(e) > 5 else "ended"
@@ -569,7 +622,7 @@ def unjustified_give_ups(sc: dict, log: list, upto: int | None = None) -> list[t
             o = opts_of.get(e[2], {})
             b, t = o.get("cancellation_backoff"), o.get("cancellation_timeout")
             patience = float(b or 0) + float(t or 0)
-            spent = e[0] - begun.get(key, e[0])
+            spent = e[0] - begun.get((*key, e[7] if len(e) > 7 else None), e[0] - patience)    # (begin and end of the SAME stopper)
             if how != "ended":
                 if not op_cancelled:        # (a repeated cancellation of operator() cuts the killer and its stoppers short: C20-D4)
                     out.append((key, f"its stopper was {how} after {spent} s"))
@@ -581,10 +634,10 @@ def unjustified_give_ups(sc: dict, log: list, upto: int | None = None) -> list[t
 
 
 def model_cfg(sc: dict, fixed: bool, core_watched: bool, orch_shielded: bool = True, spawn_swept: bool = True,
-              stop_swept: bool = True, depl_escalates: bool = True) -> dict:
+              stop_swept: bool = True, depl_escalates: bool = True, orch_swept: bool = False) -> dict:
     g = graces(sc)
     return {"fixed": fixed, "coreWatched": core_watched, "orchShielded": orch_shielded, "spawnSwept": spawn_swept,
-            "stopSwept": stop_swept, "deplEscalates": depl_escalates, "E": ticks(g["E"]), "W": ticks(g["W"]), "D": ticks(g["D"]),
+            "stopSwept": stop_swept, "deplEscalates": depl_escalates, "orchSwept": orch_swept, "E": ticks(g["E"]), "W": ticks(g["W"]), "D": ticks(g["D"]),
             "C": ticks(g["C"]), "H": ticks(g["H"])}
 
 
@@ -605,6 +658,7 @@ def abstract(obs: dict, sc: dict | None = None, checker_awaits_core: bool = Fals
     hung_wait_cancelled = False
     orch_err = False               # a (non-404) failed ensemble task has cancelled the running orchestrator
     orch_stopping = False
+    orch_poisoned = False          # the harness has made the orchestrator's own loop raise (`poisoned orchestrator`)
     open_stop_redundant = False    # the orchestrator's latest `aiotasks.stop` is the one of `terminate_redundancies`
     wd_requests: dict[int, int] = {}
     out: list[list] = []
@@ -660,6 +714,8 @@ def abstract(obs: dict, sc: dict | None = None, checker_awaits_core: bool = Fals
             out.append([t, *lab])
         if kind == "spawned":
             spawned_seen = True
+        if kind == "poisoned" and a and a[0] == "orchestrator":
+            orch_poisoned = True
         if kind == "rtStopRootsCancelled":
             # operator() was cancelled while run_tasks awaited `stop(root_pending)`: since /repo 883284c it stops ALL root tasks
             # again (`rtStopRootsBegin … cancelled`, below: `rtCancel`); a tree without that handler ends operator() here (the
@@ -735,6 +791,12 @@ def abstract(obs: dict, sc: dict | None = None, checker_awaits_core: bool = Fals
             put("scCoreStopped")
         elif kind == "enter":
             put("coreEnter") if a[0] == "core" else put("enter", a[0])
+        elif kind == "rootEnd" and a[0] == "orchestrator" and a[1] == "failed" and orch_poisoned and not orch_stopping:
+            # the orchestrator's OWN loop has raised (the harness poisoned one adjustment) and it ended without ever beginning to stop
+            # its ensemble: the current tree leaves the model here (`orchCrash`, variant `orchSwept := false`, open finding C20-F12);
+            # the driver stops comparing at this label ("truncated")
+            ended_roots.add(a[0])
+            put("orchCrash")
         elif kind == "rootEnd":
             ended_roots.add(a[0])
             if checker_awaits_core and a[0] == "stopFlag" and (a[1] == "failed" or (not flag_set and not stopping_begun)):
@@ -981,7 +1043,7 @@ def oracle(sc: dict, obs: dict) -> tuple[list[tuple[str, dict]], dict]:
         failures = [f for f in failures if f not in dk_failed]
     facts["daemon_killer_crashed"] = bool(dk_failed)
     # the situations of the open findings C20-F8 … F11 (each reported under its own signature, see below)
-    double_cancel = [i for i, e in enumerate(log) if e[1] == "orchStopSubsCancelled"]
+    double_cancel = [i for i, e in enumerate(log) if e[1] == "orchStopSubsCancelled" and i < end_pos]   # (not the harness' final kill)
     killer_pos = next((i for i, e in enumerate(log) if e[1] == "killerFinally"), None)
     # (a daemon is "late" when its TASK was created after the sweep: one whose handler merely begins after the sweep was seen
     #  by the killer and got its exit stopper)
@@ -1185,6 +1247,12 @@ def oracle(sc: dict, obs: dict) -> tuple[list[tuple[str, dict]], dict]:
                         f"t={trig[0][1]}): it returned at once; afterwards: {after[:3]}", STOPCANCEL_SIG))
         elif after:
             fail("running.run_tasks", "activity after operator() returned", f"{after[:3]}")
+        # ... and nothing is LEFT that could go on: every task the operator created is over when the run call has returned (the
+        # simulation sweeps the tasks of the incarnation that are still pending at its end: `zombies`), silent ones included
+        zombies = [e for e in log if e[1] == "zombies"]
+        if zombies and not (after and (never_stopped or stop_cancelled)):
+            fail("running.run_tasks", "tasks of the operator are still pending after operator() returned",
+                 f"{zombies[0][2]} task(s): {zombies[0][3]}; operator() outcome {ret}")
         # the peering record is withdrawn
         if sc.get("peering"):
             pings = [i for i in apis if log[i][2] == "pinger" and not log[i][7]]
@@ -1338,7 +1406,9 @@ TRIGGERS = ["flag", "flag", "cancel", "cancel", "watch_error_kex", "watch_error_
             # event; the namespace observer's OWN stream (a NAMESPACED operator); the orchestrator's own failure (finding C20-F12)
             "watch_http", "watch_http", "ns_stream", "orch_fail",
             # a cancellation of operator() while run_tasks WAITS FOR THE HUNG TASKS (a daemon its stopper has given up is one)
-            "cancel_in_hung_wait"]
+            "cancel_in_hung_wait",
+            # the operator is PAUSED and STOPPED within the same few loop iterations, while a watch request waits for its response
+            "pause_stop_race"]
 PHASES = ["startup", "startup_end", "discovery", "spawning", "steady", "inflight"]
 
 
@@ -1359,6 +1429,8 @@ def gen_history(rng: Any, i: int, force: dict | None = None) -> dict:
         peering = force.get("peering", rng.random() < 0.6)
     if trigger == "ns_stream":
         peering = False
+    if trigger == "pause_stop_race":
+        peering = True
     handlers: list[dict] = []
     shape: dict[str, Any] = {"trigger": trigger, "peering": peering}
     # startup handlers
@@ -1443,7 +1515,7 @@ def gen_history(rng: Any, i: int, force: dict | None = None) -> dict:
     if trigger in ("worker_fail_depletion", "failure_then_stop", "two_failures", "flag_then_cancel", "respawn_daemon",
                    "worker_fail_gone", "login_fail_at_stop"):
         phase = "steady"
-    if trigger == "cancel_in_hung_wait":
+    if trigger in ("cancel_in_hung_wait", "pause_stop_race"):
         phase = "steady"
     if trigger in ("watch_http", "ns_stream", "orch_fail") and phase == "spawning":
         phase = rng.choice(["steady", "inflight"])
@@ -1608,6 +1680,23 @@ def gen_history(rng: Any, i: int, force: dict | None = None) -> dict:
         shape["stream"] = "ns:" + how
     elif trigger == "orch_fail":
         ops.append([t, "orch_poison"])
+    elif trigger == "pause_stop_race":
+        # the API server is slow to answer the WATCH requests of the served resource (0.5 s before the headers); its stream ends
+        # (server timeout) and the watcher re-watches: while that request is pending, `api.stream` lets the pause-stopper cancel it.
+        # In that window a peer of a higher priority appears (the operator pauses: the stopper cancels the request) and, n loop
+        # iterations later (or before), the stop comes (the operator cancels the watcher too): a cancellation that is BOTH must not
+        # be swallowed as the stopper's own (C03-N5 / d8da165; `Task.uncancel()`), or the watcher goes back to wait for the un-pause
+        # and the operator never exits
+        sc["watch_response_latency"] = 0.5
+        n_it = force.get("n", rng.randrange(0, 6))
+        stop = [rng.choice(["flag", "flag", "cancel"])]
+        pause = ["rival", 100, 60]
+        first, second = (pause, stop) if force.get("order", rng.choice(["pause", "pause", "stop"])) == "pause" else (stop, pause)
+        ops.append([t, "watch_eof", "kex"])
+        ops.append([t + 0.375, *first])
+        ops.append([t + 0.375, "yields", n_it])
+        ops.append([t + 0.375, *second])
+        shape["race"] = n_it
     elif trigger == "cancel_in_hung_wait":
         # the root tasks are over after D (the other daemons' stoppers) + W (withdrawal) + C (cleanup); the hung wait lasts 5 s
         g_ = graces(sc)
@@ -1617,11 +1706,25 @@ def gen_history(rng: Any, i: int, force: dict | None = None) -> dict:
         pass
     elif trigger == "cleanup_fail":
         ops.append([t, rng.choice(["flag", "flag", "cancel"])])
+    # the operator is PAUSED at the trigger: a peer of a higher priority has appeared in the peering object a moment before (the streams
+    # are disconnected, the daemon killer stops the daemons with PAUSING stoppers, every second anew; the peering observer's worker
+    # sleeps until the rival's record expires)
+    if peering and not sc.get("namespaced") and trigger in ("flag", "cancel", "watch_error_kex", "watch_error_peering",
+                                                             "failure_then_stop", "flag_then_cancel", "cancel_in_hung_wait") \
+            and phase in ("steady", "inflight") and rng.random() < 0.25:
+        ops.append([max(0.0, t - rng.choice([0.0, 1 / TPS, 2 / TPS, 0.25, 1.0, 3.0])), "rival", 100, 60])
+        shape["paused"] = True
+    # a DELETION in progress at the trigger: the object is marked shortly before (its daemons are being stopped the multi-step way,
+    # `stop_daemons`, its finalizer is being released) when the exit stoppers / the depletion come
+    if objects and trigger in ("flag", "cancel", "watch_error_kex", "watch_error_crd", "failure_then_stop", "flag_then_cancel",
+                               "watch_http", "cancel_in_hung_wait") and phase in ("steady", "inflight") and rng.random() < 0.15:
+        ops.append([t - rng.choice([1 / TPS, 0.25, 1.0]), "delete", objects[-1]["name"]])
+        shape["deleting"] = True
     # when is the trigger felt at the latest? (keep-alive period <= 60 s; retries of a failing request)
     felt = {"login_fail_at_stop": t, "failure_then_stop": t + 0.25, "two_failures": t + 0.25, "flag_then_cancel": t + 0.5, "cancel_in_spawn": 0.0,
             "worker_fail_gone": t + 2.0, "login_fail": t + 1.0, "pinger_500": t + 60.0 + 8.0, "discovery_500_rescan": t + 8.0, "discovery_500_initial": s_dur + 8.0,
             "startup_fail": s_dur + 1.0, "memo_poison": t + 1.0, "watch_http": t + 6.0, "ns_stream": t + 6.0,
-            "orch_fail": t + 1.0, "cancel_in_hung_wait": t + 12.0}.get(trigger, t)
+            "orch_fail": t + 1.0, "cancel_in_hung_wait": t + 12.0, "pause_stop_race": t + 0.375}.get(trigger, t)
     b = bound_s(sc)
     probe = felt + b + 2.0
     if objects and trigger not in ("crd_gone",):
@@ -1705,10 +1808,7 @@ def _evaluate(ctx: Ctx, histories: list[dict], tie: bool = True) -> None:
         if facts.get("noncooperative"):
             noncoop.add(k)
             ctx.count("tie_skipped", "C20-F7")
-        elif facts.get("orchestrator_own_failure"):
-            # the orchestrator's OWN failure has no counterpart in the Lean model (ASSUMPTIONS; open finding C20-F12): oracle only
-            noncoop.add(k)
-            ctx.count("tie_skipped", "C20-F12 (orchestrator's own failure: not modelled)")
+
         shape = dict(sc.get("shape") or {"corpus": sc.get("name")})
         shape["outcome"] = (obs.get("returned") or {}).get("how")
         ctx.case(key=shape, nontrivial=facts.get("trigger") is not None,
@@ -1721,7 +1821,7 @@ def _evaluate(ctx: Ctx, histories: list[dict], tie: bool = True) -> None:
             ctx.count("daemon_mode", d)
         ctx.count("peering", bool(sc.get("peering")))
         ctx.count("orchestrator_exit_order", str(facts.get("exit_order")))
-        for extra in ("timer", "second_kind", "empty_vault", "namespaced"):
+        for extra in ("timer", "second_kind", "empty_vault", "namespaced", "deleting", "paused"):
             ctx.count(extra, bool((sc.get("shape") or {}).get(extra)))
         ctx.count("daemons_given_up_by_their_stopper", str(len(given_up(obs["log"]))))
         if (sc.get("shape") or {}).get("stream"):
@@ -1751,7 +1851,8 @@ def _evaluate(ctx: Ctx, histories: list[dict], tie: bool = True) -> None:
         histories = [sc for k, sc in enumerate(histories) if k not in noncoop]
         obs_list = [o for k, o in enumerate(obs_list) if k not in noncoop]
     reqs = [["C20.trace", model_cfg(sc, fixed, core_watched, orch_shielded, bool(xf.get("spawnTasksSweepsOnCancel")),
-                                    bool(xf.get("runTasksSweepsOnCancel")), bool(xf.get("watcherRechecksWorkerError"))),
+                                    bool(xf.get("runTasksSweepsOnCancel")), bool(xf.get("watcherRechecksWorkerError")),
+                                    bool(xf.get("orchestratorSweepsOnOwnFailure"))),
              abstract(obs, sc, swap)]
             for sc, obs in zip(histories, obs_list)]
     try:
@@ -1776,9 +1877,11 @@ def _evaluate(ctx: Ctx, histories: list[dict], tie: bool = True) -> None:
             # (only in a tree WITHOUT one of the repairs ab6fb15 / d6da86b / 883284c, whose historical model variant the extracted
             #  facts select — the tie theorems fail then as well:) the run left the model at `orchAbandon` / `spawnCancel` /
             #  `stopCancel` (C20-F8 / F10 / F11, reported by the oracle): compared up to that label only
-            left = [l[1] for l in req[2] if l[1] in ("orchAbandon", "spawnCancel", "stopCancel")]
+            left = [l[1] for l in req[2] if l[1] in ("orchAbandon", "spawnCancel", "stopCancel", "orchCrash")]
             ctx.count("tie_truncated_at", {"orchAbandon": "orchAbandon (C20-F8)", "spawnCancel": "spawnCancel (C20-F10)",
-                                           "stopCancel": "stopCancel (C20-F11)"}.get(left[0] if left else "", "?"))
+                                           "stopCancel": "stopCancel (C20-F11)",
+                                           "orchCrash": "orchCrash (C20-F12, open: the current tree leaves the model there)"}
+                      .get(left[0] if left else "", "?"))
             continue
         fin = m["final"]
         ret = obs.get("returned")
